@@ -124,6 +124,18 @@ CHECKS['C02'] = dict(
          'codecs probed at exactly representable values only. Trusted: Lean kernel + 3 axioms; g++/clang++ on x86-64; header reader for '
          'member names; the hand-written name map tools/c02_namemap.py (a wrong entry produces a violation, never a silent pass).')
 
+CHECKS['C14'] = dict(
+    text='Lean 4 refinement of a literal state-machine model of rtcm_framer.cc (OnByte/Resync/OnData, well-founded Resync loop) to '
+         'the shared framing scan Cfg.run cfgRtcm: callbacks = the scan\'s frames for any stream, chunking, buffer kind and capacity, '
+         'return values = dispatched sizes, decoded count = callbacks (mod 2^32), chunking independence, inductive memory-safety '
+         'invariant with an explicit out-of-bounds flag, CRC-24Q table literals (regenerated from the source) = table recomputed from '
+         'polynomial 0x1864CFB. Tied to the compiled framer by per-call trace equality under ASan/UBSan with exact-size misaligned '
+         'buffers; the scan serves as oracle.',
+    ref='4 C14', technique='Lean 4 refinement proof (literal framer model -> scan spec) + ASan/UBSan correspondence harness',
+    note='Memory safety of the compiled code is validated by ASan on the correspondence inputs, not proved. CRC-24Q is defined '
+         'table-driven from polynomial 0x1864CFB (bit-serial equivalence tested, not proved). Trusted: Lean kernel + 3 axioms; harness; '
+         'operator new 4-byte aligned; uint32 counters mod 2^32.')
+
 NOT_APPLICABLE = []
 
 
